@@ -31,20 +31,37 @@ type vttEvent struct {
 	Res  string     `json:"res"`
 	Msg  string     `json:"msg"`
 	Raw  string     `json:"raw"`
+	// what the hook at the top of the reader's main loop reported, one entry per scanned line
+	Hooks []vttHook `json:"hooks"`
+}
+
+type vttHook struct {
+	N        int    `json:"n"`
+	Items    int    `json:"items"`
+	Block    string `json:"block"`
+	Tags     int    `json:"tags"`
+	Comments int    `json:"comments"`
 }
 
 func vttRead(n int, c vttCase) vttEvent {
 	p := vttx.PoolFor(n)
 	c.G.Norm()
 	c.D.Norm()
-	ev := vttEvent{N: n, Dir: "read", G: c.G, D: c.D}
+	ev := vttEvent{N: n, Dir: "read", G: c.G, D: c.D, Hooks: []vttHook{}}
 	ev.Post.Norm()
 	raw := vttx.Concretise(c.D, p)
 	dumpDoc("vtt", n, raw)
 	ev.Raw = string(raw)
 	var s *astisub.Subtitles
 	var err error
-	ev.Res, ev.Msg = run.Guard(10*time.Second, func() { s, err = astisub.ReadFromWebVTT(bytes.NewReader(raw)) })
+	rd := bytes.NewReader(raw)
+	astisub.VerifHook = func(site string, key interface{}, kv ...interface{}) {
+		if site == "vtt.line" && key == interface{}(rd) && len(kv) == 5 {
+			ev.Hooks = append(ev.Hooks, vttHook{kv[0].(int), kv[1].(int), kv[2].(string), kv[3].(int), kv[4].(int)})
+		}
+	}
+	ev.Res, ev.Msg = run.Guard(10*time.Second, func() { s, err = astisub.ReadFromWebVTT(rd) })
+	astisub.VerifHook = nil
 	if ev.Res == "ok" && err != nil {
 		ev.Res, ev.Msg = "err", err.Error()
 	}
@@ -57,7 +74,7 @@ func vttRead(n int, c vttCase) vttEvent {
 func vttWrite(n int, g vttx.Truth) vttEvent {
 	p := vttx.PoolFor(n)
 	g.Norm()
-	ev := vttEvent{N: n, Dir: "write", G: g}
+	ev := vttEvent{N: n, Dir: "write", G: g, Hooks: []vttHook{}}
 	ev.D.Norm()
 	ev.Post.Norm()
 	s := vttx.Build(g, p)
